@@ -46,7 +46,6 @@ Theorem C10_auto_fixpoint :
   forall fl R dirs b,
   f_baseline fl = true -> f_update fl = None ->
   effective_ratchet (f_ratchet_cli fl) (f_ratchet_cfg fl) = Some RAuto ->
-  stable_bl (rekey b) ->
   let out1 := check_step fl R dirs (Some b) in
   let out2 := check_step fl R dirs (o_disk out1) in
   o_stale out2 = [] /\ o_disk out2 = o_disk out1 /\ o_results out2 = o_results out1 /\
